@@ -11,6 +11,8 @@ import (
 	"sync"
 
 	"ariga.io/atlas/sql/migrate"
+	"ariga.io/atlas/sql/mysql"
+	"ariga.io/atlas/sql/postgres"
 	"ariga.io/atlas/sql/schema"
 	"ariga.io/atlas/sql/sqlite"
 	"ariga.io/atlas/sql/sqltool"
@@ -18,6 +20,7 @@ import (
 	"verif/engine/enum"
 	"verif/engine/report"
 	"verif/sqliteh"
+	"verif/universe/dfu"
 	"verif/universe/squ"
 )
 
@@ -361,9 +364,109 @@ func pairs(tier string) []Case {
 	return cs
 }
 
+// ---------- planner level: MySQL / PostgreSQL (no engine) ----------
+
+type PCase struct {
+	Dialect string   `json:"dialect"`
+	Kind    string   `json:"kind"`
+	Edits   []string `json:"edits,omitempty"`
+	Indent  string   `json:"indent"`
+}
+
+func evalPlanner(c PCase) (problems []string, n int) {
+	bad := func(f string, a ...any) { problems = append(problems, fmt.Sprintf(f, a...)) }
+	defer func() {
+		if p := recover(); p != nil {
+			bad("panic: %v", p)
+		}
+	}()
+	d, pl := dfu.MySQL, mysql.DefaultPlan
+	scan := func(in string) ([]string, error) { return texts((*mysql.Driver)(nil).ScanStmts(in)) }
+	if c.Dialect == "postgres" {
+		d, pl = dfu.Postgres, postgres.DefaultPlan
+		scan = func(in string) ([]string, error) { return texts((*postgres.Driver)(nil).ScanStmts(in)) }
+	}
+	from, to := dfu.Base(d), dfu.Base(d)
+	empty := schema.New(d.Schema)
+	schema.NewRealm(empty)
+	switch c.Kind {
+	case "create_all":
+		from = empty
+	case "drop_all":
+		to = empty
+	default:
+		for _, n := range c.Edits {
+			for _, e := range dfu.Edits(d) {
+				if e.Name == n {
+					e.Apply(to)
+				}
+			}
+		}
+	}
+	changes, err := d.Diff.SchemaDiff(from, to, schema.DiffNormalized())
+	if err != nil || len(changes) == 0 {
+		return nil, 0
+	}
+	plan, err := pl.PlanChanges(context.Background(), "p", changes, func(o *migrate.PlanOptions) {
+		o.Indent = c.Indent
+		o.SchemaQualifier = new(string)
+	})
+	if err != nil {
+		return nil, 0
+	}
+	plan.Version = "1"
+	CheckPlanFlags(plan, scan, bad)
+	return problems, len(plan.Changes)
+}
+
+func texts(st []*migrate.Stmt, err error) ([]string, error) {
+	if err != nil {
+		return nil, err
+	}
+	out := make([]string, len(st))
+	for i := range st {
+		out[i] = st[i].Text
+	}
+	return out, nil
+}
+
+func plannerCases(tier string) []PCase {
+	var cs []PCase
+	for _, d := range []*dfu.Dialect{dfu.MySQL, dfu.Postgres} {
+		for _, ind := range []string{"", "  "} {
+			cs = append(cs, PCase{d.Name, "create_all", nil, ind}, PCase{d.Name, "drop_all", nil, ind})
+			es := dfu.Edits(d)
+			for _, e := range es {
+				cs = append(cs, PCase{d.Name, "edits", []string{e.Name}, ind})
+			}
+			for i := range es {
+				for j := i + 1; j < len(es); j++ {
+					if dfu.Compatible(es[i], es[j]) && (tier == "thorough" || (i+j)%5 == 0) {
+						cs = append(cs, PCase{d.Name, "edits", []string{es[i].Name, es[j].Name}, ind})
+					}
+				}
+			}
+		}
+	}
+	return cs
+}
+
 func Run(r *report.Run) {
 	ctx := context.Background()
-	r.Rule = "pairs (A,B) of the SQLite universe as in C01 x indent {none, two spaces}: plan from the real differ/planner; (a) Reversible <=> every change has a reverse statement, a plan that rebuilds a table is never reversible; (b) for the 5 third-party formatters the down part (our own extraction + the dialect scanner) equals the reverse statements in reverse change order; (c) for reversible plans: up then down on the real engine restores the catalogue read by our own pragma dump, and atlas reports no difference from the starting schema in both directions; non-trivial = pair with a non-empty plan; distinct = (A,B,indent)"
+	pcs := plannerCases(r.Tier)
+	pn := 0
+	for _, c := range pcs {
+		problems, n := evalPlanner(c)
+		r.Case(fmt.Sprintf("planner|%v", c), n > 0)
+		if n > 0 {
+			pn++
+		}
+		if len(problems) > 0 {
+			r.Violate("", fmt.Sprintf("%s %s %v indent=%q: %s", c.Dialect, c.Kind, c.Edits, c.Indent, strings.Join(problems, " | ")), map[string]any{"planner": c})
+		}
+	}
+	r.Set("mysql_postgres_plans_checked_for_flag_and_down_files", pn)
+	r.Rule = "(planner level) MySQL and PostgreSQL plans of the differ universe (create-all, drop-all, every single edit, a fifth of the compatible pairs; thorough: all pairs) x 2 indents: parts (a) and (b) below; (engine level) pairs (A,B) of the SQLite universe as in C01 x indent {none, two spaces}: plan from the real differ/planner; (a) Reversible <=> every change has a reverse statement, a plan that rebuilds a table is never reversible; (b) for the 5 third-party formatters the down part (our own extraction + the dialect scanner) equals the reverse statements in reverse change order; (c) for reversible plans: up then down on the real engine restores the catalogue read by our own pragma dump, and atlas reports no difference from the starting schema in both directions; non-trivial = pair with a non-empty plan; distinct = (A,B,indent)"
 	r.Assumptions = []string{"MySQL/PostgreSQL plans are covered for (a) and (b) by the planner-level checks; (c) needs an engine and is SQLite only"}
 	cs := pairs(r.Tier)
 	var mu sync.Mutex
@@ -403,6 +506,19 @@ func classify(c Case, res Result) string {
 }
 
 func Replay(r *report.Run, raw json.RawMessage) {
+	var pv struct {
+		Case struct{ Planner *PCase }
+	}
+	if json.Unmarshal(raw, &pv) == nil && pv.Case.Planner != nil {
+		problems, n := evalPlanner(*pv.Case.Planner)
+		fmt.Printf("  planner case %+v changes=%d\n", *pv.Case.Planner, n)
+		r.Case("a", true)
+		r.Case("b", true)
+		if len(problems) > 0 {
+			r.Violate("", strings.Join(problems, " | "), pv.Case)
+		}
+		return
+	}
 	var v struct{ Case Case }
 	if err := json.Unmarshal(raw, &v); err != nil {
 		r.Violate("", "bad replay file: "+err.Error(), nil)
